@@ -65,14 +65,48 @@ func c17RelAny(f *flow.Func, sts []*flow.State, a, b ast.Expr) int {
 	return m
 }
 
+// c17CapField resolves the capacity field of Semaphore by role: its only int64 field (the current
+// name realCapacity is the tie-breaker).
+func c17CapField(c *core.Ctx) *types.Var {
+	semT := namedType(c, c17Sem, "Semaphore")
+	if semT == nil {
+		return nil
+	}
+	cands := c17FieldsByType(semT, "int64")
+	if len(cands) == 1 {
+		return cands[0]
+	}
+	for _, f := range cands {
+		if f.Name() == "realCapacity" {
+			return f
+		}
+	}
+	c.Errorf("R-C17-4: anchor: capacity field of sem.Semaphore not found (%d int64 fields)", len(cands))
+	return nil
+}
+
+// c17Unit is a piece of code analysed on its own: a function of the reach or a function literal.
+type c17Unit struct {
+	g   *flow.Func   // enclosing reach function
+	lit *ast.FuncLit // nil for the function itself
+}
+
+func (u c17Unit) node() ast.Node {
+	if u.lit != nil {
+		return u.lit
+	}
+	return u.g.Body
+}
+
 func c17Resize(c *core.Ctx) {
 	f := fn(c, c17Sem, "Semaphore", "SetMaxCount")
 	semT := namedType(c, c17Sem, "Semaphore")
-	capF := structField(c, c17Sem, "Semaphore", "realCapacity")
+	capF := c17CapField(c)
 	if f == nil || semT == nil || capF == nil {
 		return
 	}
 	cons := fname(c17Sem, "Semaphore", "SetMaxCount")
+	capName := capF.Name()
 	mutexes := c17FieldsByType(semT, "sync.Mutex")
 	mutexes = append(mutexes, c17FieldsByType(semT, "sync.RWMutex")...)
 	isMutex := func(e ast.Expr) bool {
@@ -84,49 +118,143 @@ func c17Resize(c *core.Ctx) {
 		}
 		return false
 	}
+	bind := c17NewBind(f, 3)
 
-	// roles: old := s.realCapacity ; s.realCapacity = new
-	var readStmt, writeStmt *ast.AssignStmt
-	var oldID, newID *ast.Ident
-	nRead, nWrite := 0, 0
-	ast.Inspect(f.Body, func(n ast.Node) bool {
-		as, ok := n.(*ast.AssignStmt)
-		if !ok {
+	// units: every reach function and every literal inside one
+	var lits []c17Unit
+	for _, g := range bind.funcs {
+		g := g
+		ast.Inspect(g.Body, func(n ast.Node) bool {
+			if l, ok := n.(*ast.FuncLit); ok {
+				lits = append(lits, c17Unit{g, l})
+			}
 			return true
-		}
-		for i, l := range as.Lhs {
-			if c17Field(f, l) == capF {
-				nWrite++
-				writeStmt = as
-				if len(as.Lhs) == len(as.Rhs) && as.Tok == token.ASSIGN {
-					newID, _ = c17StripConv(f, as.Rhs[i]).(*ast.Ident)
-				}
+		})
+	}
+	unitOf := func(n ast.Node) c17Unit {
+		var in *c17Unit
+		for i := range lits {
+			if contains(lits[i].lit, n) && (in == nil || contains(in.lit, lits[i].lit)) {
+				in = &lits[i]
 			}
 		}
-		for i, r := range as.Rhs {
-			if c17Field(f, c17StripConv(f, r)) == capF && len(as.Lhs) == len(as.Rhs) {
-				nRead++
-				readStmt = as
-				oldID, _ = as.Lhs[i].(*ast.Ident)
+		if in != nil {
+			return *in
+		}
+		return c17Unit{g: bind.enclosing(n)}
+	}
+	pms := map[*flow.Func]map[ast.Node]ast.Node{}
+	pmOf := func(g *flow.Func) map[ast.Node]ast.Node {
+		if pms[g] == nil {
+			pms[g] = parentMap(g.Body)
+		}
+		return pms[g]
+	}
+	// isGoUnit: the unit runs as a goroutine of its own (`go func(){..}()`, or a function all of
+	// whose call sites are go statements); nested literals inherit from the enclosing one
+	var isGoUnit func(u c17Unit) bool
+	isGoUnit = func(u c17Unit) bool {
+		if u.g == nil {
+			return false
+		}
+		if u.lit != nil {
+			pm := pmOf(u.g)
+			if call, ok := pm[u.lit].(*ast.CallExpr); ok && ast.Unparen(call.Fun) == ast.Expr(u.lit) {
+				if _, ok := pm[call].(*ast.GoStmt); ok {
+					return true
+				}
+			}
+			if pm[u.lit] == nil {
+				return false
+			}
+			return isGoUnit(unitOf(pm[u.lit]))
+		}
+		fo := c17FuncObj(u.g)
+		if fo == nil || u.g == f {
+			return false
+		}
+		ss := bind.sites[fo]
+		if len(ss) == 0 {
+			return false
+		}
+		for _, s := range ss {
+			if _, ok := pmOf(s.g)[s.call].(*ast.GoStmt); !ok {
+				return false
 			}
 		}
 		return true
-	})
+	}
+
+	// roles: old := s.capacity ; s.capacity = new   (anywhere in the reach)
+	var readStmt, writeStmt *ast.AssignStmt
+	var oldID, newID *ast.Ident
+	nRead, nWrite := 0, 0
+	for _, g := range bind.funcs {
+		ast.Inspect(g.Body, func(n ast.Node) bool {
+			as, ok := n.(*ast.AssignStmt)
+			if !ok {
+				return true
+			}
+			for i, l := range as.Lhs {
+				if c17Field(f, l) == capF {
+					nWrite++
+					writeStmt = as
+					if len(as.Lhs) == len(as.Rhs) && as.Tok == token.ASSIGN {
+						newID, _ = c17StripConv(f, as.Rhs[i]).(*ast.Ident)
+					}
+				}
+			}
+			for i, r := range as.Rhs {
+				if c17Field(f, c17StripConv(f, r)) == capF && len(as.Lhs) == len(as.Rhs) {
+					nRead++
+					readStmt = as
+					oldID, _ = as.Lhs[i].(*ast.Ident)
+				}
+			}
+			return true
+		})
+	}
 	if nRead == 0 || nWrite == 0 {
 		c.Violate("R-C17-4", cons+"|read-modify-write in one critical section", pos(c, f.Body),
-			sprintf("SetMaxCount reads realCapacity %d time(s) and stores it %d time(s): without remembering the old capacity and recording the new one the signed adjustment of the weighted semaphore cannot be right for the next resize", nRead, nWrite))
+			sprintf("SetMaxCount reads %s %d time(s) and stores it %d time(s): without remembering the old capacity and recording the new one the signed adjustment of the weighted semaphore cannot be right for the next resize", capName, nRead, nWrite))
 		return
 	}
 	if nRead != 1 || nWrite != 1 || oldID == nil || newID == nil {
 		c.Undecide("R-C17-4", cons+"|read-modify-write in one critical section", pos(c, f.Body),
-			"cannot identify `old := s.realCapacity` and `s.realCapacity = new` (exactly one of each, plain variables)")
+			"cannot identify `old := s."+capName+"` and `s."+capName+" = new` (exactly one of each, plain variables)")
 		return
 	}
-	oldObj, newObj := c17Obj(f, oldID), c17Obj(f, newID)
+	oldObj, newObj := bind.canonObj(oldID), bind.canonObj(newID)
 	if oldObj == nil || newObj == nil || oldObj == newObj {
 		c.Violate("R-C17-4", cons+"|read-modify-write in one critical section", pos(c, writeStmt),
-			"the value stored into realCapacity is the value just read from it: the new capacity is never recorded")
+			"the value stored into "+capName+" is the value just read from it: the new capacity is never recorded")
 		return
+	}
+	// identFor: an identifier inside node that stands for the given variable (vocabulary of that code)
+	identFor := func(node ast.Node, g *flow.Func, target types.Object) ast.Expr {
+		var out ast.Expr
+		look := func(n ast.Node) bool {
+			if id, ok := n.(*ast.Ident); ok && out == nil {
+				if o := c17Obj(f, id); o != nil {
+					if _, isVar := o.(*types.Var); isVar && bind.canonObj(id) == target {
+						out = id
+					}
+				}
+			}
+			return out == nil
+		}
+		ast.Inspect(node, look)
+		if out == nil && g != nil && g.Type != nil && g.Type.Params != nil {
+			ast.Inspect(g.Type.Params, look)
+		}
+		return out
+	}
+	relIn := func(node ast.Node, g *flow.Func, sts ...*flow.State) int {
+		a, b := identFor(node, g, newObj), identFor(node, g, oldObj)
+		if a == nil || b == nil || len(sts) == 0 {
+			return c17LT | c17EQ | c17GT
+		}
+		return c17RelAny(f, sts, a, b)
 	}
 
 	const (
@@ -144,70 +272,39 @@ func c17Resize(c *core.Ctx) {
 	var badRMW, badAdj []bad
 	sawRead, sawWrite := 0, 0
 
-	// adjustment calls (anywhere in the function, goroutine literal included)
+	// adjustment calls anywhere in the reach
 	type adj struct {
 		call *ast.CallExpr
 		kind string // "release" | "acquire"
-		lit  *ast.FuncLit
+		unit c17Unit
 	}
 	var adjs []adj
-	var lits []*ast.FuncLit
-	ast.Inspect(f.Body, func(n ast.Node) bool {
-		if l, ok := n.(*ast.FuncLit); ok {
-			lits = append(lits, l)
-		}
-		return true
-	})
-	litOf := func(n ast.Node) *ast.FuncLit {
-		var in *ast.FuncLit
-		for _, l := range lits {
-			if contains(l, n) && (in == nil || contains(in, l)) {
-				in = l
+	for _, g := range bind.funcs {
+		for _, call := range calls(g.Body, true) {
+			switch {
+			case c17WeightedCall(f, call, "Release"):
+				adjs = append(adjs, adj{call, "release", unitOf(call)})
+			case c17WeightedCall(f, call, "Acquire"), c17WeightedCall(f, call, "TryAcquire"):
+				adjs = append(adjs, adj{call, "acquire", unitOf(call)})
 			}
-		}
-		return in
-	}
-	for _, call := range calls(f.Body, true) {
-		switch {
-		case c17WeightedCall(f, call, "Release"):
-			adjs = append(adjs, adj{call, "release", litOf(call)})
-		case c17WeightedCall(f, call, "Acquire"), c17WeightedCall(f, call, "TryAcquire"):
-			adjs = append(adjs, adj{call, "acquire", litOf(call)})
 		}
 	}
-	if rl, wl := litOf(readStmt), litOf(writeStmt); rl != nil || wl != nil {
-		// a function literal started with `go` runs at some later time: a read or store inside it
-		// cannot be in the critical section of the other half that stays in SetMaxCount proper
-		pmAll := parentMap(f.Body)
-		isGo := func(l *ast.FuncLit) bool {
-			if l == nil {
-				return false
-			}
-			for cur := l; cur != nil; cur = litOf(pmAll[cur]) {
-				if call, ok := pmAll[cur].(*ast.CallExpr); ok && ast.Unparen(call.Fun) == ast.Expr(cur) {
-					if _, ok := pmAll[call].(*ast.GoStmt); ok {
-						return true
-					}
-				}
-				if pmAll[cur] == nil {
-					break
-				}
-			}
-			return false
-		}
+	ru, wu := unitOf(readStmt), unitOf(writeStmt)
+	if ru != wu || ru.lit != nil {
 		switch {
-		case rl != wl && isGo(wl):
+		case ru != wu && isGoUnit(wu):
 			c.Violate("R-C17-4", cons+"|read-modify-write in one critical section", pos(c, writeStmt),
-				"the new capacity is stored by the background goroutine, i.e. in a different critical section (and at an unknown later time) than the one that read the old capacity: a second SetMaxCount that overlaps a pending resize computes its delta from a stale realCapacity and a slow resize later overwrites the newer value, so the deltas no longer telescope and the effective cap drifts away from maxConnections")
+				"the new capacity is stored by the background goroutine, i.e. in a different critical section (and at an unknown later time) than the one that read the old capacity: a second SetMaxCount that overlaps a pending resize computes its delta from a stale "+capName+" and a slow resize later overwrites the newer value, so the deltas no longer telescope and the effective cap drifts away from maxConnections")
 			return
-		case rl != wl && isGo(rl):
+		case ru != wu && isGoUnit(ru):
 			c.Violate("R-C17-4", cons+"|read-modify-write in one critical section", pos(c, readStmt),
 				"the old capacity is read by the background goroutine, i.e. in a different critical section (and at an unknown later time) than the one that stores the new capacity: the goroutine can read the value just stored (delta 0) or that of a later call, so the effective cap drifts away from maxConnections")
 			return
+		case ru.lit != nil || wu.lit != nil:
+			c.Undecide("R-C17-4", cons+"|read-modify-write in one critical section", pos(c, writeStmt),
+				"the "+capName+" read and store sit inside a function literal that is not a goroutine of its own (immediately-invoked / deferred closure): not modelled")
+			return
 		}
-		c.Undecide("R-C17-4", cons+"|read-modify-write in one critical section", pos(c, writeStmt),
-			"the realCapacity read and store sit inside a function literal that is not a goroutine of its own (immediately-invoked / deferred closure): not modelled")
-		return
 	}
 	isAdj := map[*ast.CallExpr]adj{}
 	for _, a := range adjs {
@@ -226,7 +323,7 @@ func c17Resize(c *core.Ctx) {
 		if !ok || be.Op != token.SUB {
 			return false, "the weight " + f.Render(a.call.Args[idx]) + " is not a difference of the new and the old capacity"
 		}
-		x, y := c17Obj(f, c17StripConv(f, be.X)), c17Obj(f, c17StripConv(f, be.Y))
+		x, y := bind.canonObj(be.X), bind.canonObj(be.Y)
 		if a.kind == "release" && x == newObj && y == oldObj {
 			return true, ""
 		}
@@ -239,9 +336,11 @@ func c17Resize(c *core.Ctx) {
 		return false, "the weight " + f.Render(a.call.Args[idx]) + " is not a difference of the new and the old capacity"
 	}
 
-	mkConfig := func(outerAtLit func() []*flow.State) flow.Config {
+	// mkConfig analyses one unit; outer are the states in which the unit was started (nil for the root)
+	mkConfig := func(unit c17Unit, outerRel func() int, inl func(*ast.CallExpr, *types.Func) *flow.Func) flow.Config {
 		return flow.Config{
 			NoHavoc: true,
+			Inline:  inl,
 			OnNode: func(st *flow.State, n ast.Node) {
 				as, ok := n.(*ast.AssignStmt)
 				if !ok {
@@ -250,7 +349,7 @@ func c17Resize(c *core.Ctx) {
 				if as == readStmt {
 					sawRead++
 					if !st.Is(evLocked, flow.True) {
-						badRMW = append(badRMW, bad{st, "realCapacity is read without the semaphore's mutex: two concurrent SetMaxCount calls can both see the same old capacity and the weighted semaphore ends up off by their difference", as})
+						badRMW = append(badRMW, bad{st, capName + " is read without the semaphore's mutex: two concurrent SetMaxCount calls can both see the same old capacity and the weighted semaphore ends up off by their difference", as})
 					}
 					st.Set(evRead, flow.True)
 				}
@@ -258,7 +357,7 @@ func c17Resize(c *core.Ctx) {
 					sawWrite++
 					switch {
 					case !st.Is(evLocked, flow.True):
-						badRMW = append(badRMW, bad{st, "realCapacity is stored without the semaphore's mutex held", as})
+						badRMW = append(badRMW, bad{st, capName + " is stored without the semaphore's mutex held", as})
 					case !st.Is(evRead, flow.True):
 						badRMW = append(badRMW, bad{st, "the new capacity is stored in a different critical section than the one that read the old capacity (or before reading it): a concurrent SetMaxCount in between makes the applied delta wrong and the effective cap drifts from the configured one", as})
 					}
@@ -268,7 +367,7 @@ func c17Resize(c *core.Ctx) {
 					for _, l := range as.Lhs {
 						o := c17Obj(f, l)
 						if o == newObj && st.Is(evWrote, flow.True) {
-							badRMW = append(badRMW, bad{st, "the new capacity is modified after it has been recorded in realCapacity: the recorded and the applied capacity differ", as})
+							badRMW = append(badRMW, bad{st, "the new capacity is modified after it has been recorded in " + capName + ": the recorded and the applied capacity differ", as})
 						}
 						if o == oldObj && as != readStmt {
 							badRMW = append(badRMW, bad{st, "the remembered old capacity is overwritten", as})
@@ -289,16 +388,16 @@ func c17Resize(c *core.Ctx) {
 					return
 				}
 				a, ok := isAdj[call]
-				if !ok {
+				if !ok || a.unit != unit {
 					return
 				}
 				if good, why := deltaOK(a); !good {
 					badAdj = append(badAdj, bad{st, why, call})
 				} else {
-					rel := c17Rel(f, st, newID, oldID)
-					if outerAtLit != nil {
-						// facts established before the goroutine literal was created
-						rel &= c17RelAny(f, outerAtLit(), newID, oldID)
+					rel := relIn(unit.node(), unit.g, st)
+					if outerRel != nil {
+						// facts established before the unit was started
+						rel &= outerRel()
 					}
 					if a.kind == "release" && rel&c17LT != 0 {
 						badAdj = append(badAdj, bad{st, "capacity is released (grow) on a path where the new capacity may be smaller than the old one: a negative weight panics in semaphore.Weighted / the cap moves in the wrong direction", call})
@@ -316,36 +415,41 @@ func c17Resize(c *core.Ctx) {
 		}
 	}
 
-	res := analyze(c, f, mkConfig(nil))
+	// the root is analysed with the helpers that contain the read / the store / a mutex operation
+	// interpreted in place
+	rootInl := bind.inline(func(g *flow.Func, n ast.Node) bool {
+		switch x := n.(type) {
+		case *ast.AssignStmt:
+			return x == readStmt || x == writeStmt
+		case *ast.CallExpr:
+			if op, recv := c17Mutex(g, x); op != "" && isMutex(recv) {
+				return true
+			}
+		}
+		return false
+	})
+	rootUnit := c17Unit{g: f}
+	res := analyze(c, f, mkConfig(rootUnit, nil, rootInl))
 	if res == nil {
 		return
 	}
-	lockLeak := false
 	for _, ex := range res.Exits {
 		if ex.State.Is(evLocked, flow.True) {
-			lockLeak = true
 			badRMW = append(badRMW, bad{ex.State, "SetMaxCount returns with the semaphore's mutex held: the next resize blocks forever", ex.At})
 		}
 	}
-	_ = lockLeak
-	c.RequireCount("R-C17-4", "abstract states at the realCapacity read in SetMaxCount", sawRead, 1)
-	c.RequireCount("R-C17-4", "abstract states at the realCapacity store in SetMaxCount", sawWrite, 1)
-	if len(badRMW) > 0 {
-		c.Violate("R-C17-4", cons+"|read-modify-write in one critical section", pos(c, badRMW[0].at), badRMW[0].why, witness(badRMW[0].st)...)
-	} else {
-		c.Discharge("R-C17-4", cons+"|read-modify-write in one critical section", pos(c, writeStmt),
-			"old := realCapacity and realCapacity = new happen under the mutex in one critical section; new is not modified afterwards")
-	}
+	c.RequireCount("R-C17-4", "abstract states at the capacity read in SetMaxCount", sawRead, 1)
+	c.RequireCount("R-C17-4", "abstract states at the capacity store in SetMaxCount", sawWrite, 1)
 
-	// the adjustment: analyse each function body that contains adjustment calls
+	// the adjustment: analyse each unit that contains adjustment calls
 	if len(adjs) == 0 {
 		c.Violate("R-C17-4", cons+"|every exit adjusted", pos(c, f.Body),
-			"SetMaxCount never releases or acquires on the weighted semaphore: realCapacity changes but the number of admitted connections does not")
+			"SetMaxCount never releases or acquires on the weighted semaphore: "+capName+" changes but the number of admitted connections does not")
 		return
 	}
-	bodies := map[*ast.FuncLit]bool{}
+	units := map[c17Unit]bool{}
 	for _, a := range adjs {
-		bodies[a.lit] = true
+		units[a.unit] = true
 	}
 	type exitInfo struct {
 		st  *flow.State
@@ -353,38 +457,65 @@ func c17Resize(c *core.Ctx) {
 		at  ast.Node
 	}
 	var exits []exitInfo
-	for lit := range bodies {
-		if lit == nil {
+	for unit := range units {
+		unit := unit
+		if unit == rootUnit {
 			for _, ex := range res.Exits {
-				exits = append(exits, exitInfo{ex.State, c17Rel(f, ex.State, newID, oldID), ex.At})
+				exits = append(exits, exitInfo{ex.State, relIn(f.Body, f, ex.State), ex.At})
 			}
 			continue
 		}
-		// where is the literal created in the outer function?
-		outer := func() []*flow.State {
-			var out []*flow.State
-			for n, sts := range res.At {
-				if call, ok := n.(*ast.CallExpr); ok && ast.Unparen(call.Fun) == ast.Expr(lit) {
-					out = append(out, sts...)
-				}
-			}
-			return out
+		// where is the unit started? (literal: its creation/call; function: its call sites)
+		type start struct {
+			g    *flow.Func
+			call *ast.CallExpr
 		}
-		// the literal must be created after the new capacity has been recorded
-		for _, os := range outer() {
-			if !os.Is(evWrote, flow.True) {
-				badRMW = append(badRMW, bad{os, "the adjustment goroutine is started before the new capacity is recorded", lit})
+		var starts []start
+		if unit.lit != nil {
+			if call, ok := pmOf(unit.g)[unit.lit].(*ast.CallExpr); ok && ast.Unparen(call.Fun) == ast.Expr(unit.lit) {
+				starts = append(starts, start{unit.g, call})
+			}
+		} else if fo := c17FuncObj(unit.g); fo != nil {
+			for _, s := range bind.sites[fo] {
+				starts = append(starts, start{s.g, s.call})
 			}
 		}
-		lf := f.Lit(lit)
-		lres := analyze(c, lf, mkConfig(outer))
-		if lres == nil {
+		outer := func() (sts []*flow.State, rel int) {
+			rel = 0
+			for _, s := range starts {
+				ss := res.At[s.call]
+				sts = append(sts, ss...)
+				rel |= relIn(s.g.Body, s.g, ss...)
+			}
+			if len(sts) == 0 {
+				rel = c17LT | c17EQ | c17GT
+			}
 			return
 		}
-		for _, ex := range lres.Exits {
-			rel := c17Rel(f, ex.State, newID, oldID) & c17RelAny(f, outer(), newID, oldID)
-			exits = append(exits, exitInfo{ex.State, rel, ex.At})
+		osts, orel := outer()
+		// the unit must be started after the new capacity has been recorded
+		for _, os := range osts {
+			if !os.Is(evWrote, flow.True) {
+				badRMW = append(badRMW, bad{os, "the adjustment is started before the new capacity is recorded", unit.node()})
+			}
 		}
+		uf := unit.g
+		if unit.lit != nil {
+			uf = unit.g.Lit(unit.lit)
+		}
+		ures := analyze(c, uf, mkConfig(unit, func() int { return orel }, nil))
+		if ures == nil {
+			return
+		}
+		for _, ex := range ures.Exits {
+			exits = append(exits, exitInfo{ex.State, relIn(unit.node(), unit.g, ex.State) & orel, ex.At})
+		}
+	}
+	if len(badRMW) > 0 {
+		c.Violate("R-C17-4", cons+"|read-modify-write in one critical section", pos(c, badRMW[0].at), badRMW[0].why, witness(badRMW[0].st)...)
+	} else {
+		c.Discharge("R-C17-4", cons+"|read-modify-write in one critical section", pos(c, writeStmt),
+			"old := "+capName+" and "+capName+" = new happen under the mutex in one critical section; new is not modified afterwards")
 	}
 	releaseSites, acquireSites := 0, 0
 	for _, a := range adjs {
@@ -443,7 +574,7 @@ func c17Resize(c *core.Ctx) {
 // pre-acquires K - n, so that exactly n units are available.
 func c17NewSem(c *core.Ctx) {
 	f := fn(c, c17Sem, "", "NewSem")
-	capF := structField(c, c17Sem, "Semaphore", "realCapacity")
+	capF := c17CapField(c)
 	if f == nil || capF == nil {
 		return
 	}
